@@ -22,3 +22,6 @@ def run(ctx):
                        {"panic", "sdf-sign", "sdf-dist", "sdf-point", "sdf-normal"}, judge="geom/VoxelJudge", timeout=3000)
     import c06_prims
     c06_prims.run(ctx)
+    # transform-derived fields: every chain of distance-preserving-up-to-scale transform atoms around a box field
+    from props import C05
+    C05.chains_stage(ctx, clauses={"panic", "sdf"}, label="transformed-fields")
